@@ -15,8 +15,9 @@ open GrpcModel.XdsAuth GrpcProofs.Lemmas.XdsAuth
 /-- **C44, fallback.** The only event that moves the active server to a lower priority is a failure of the
     ACTIVE server's stream before any response (`afterRecv = false`) while some watched resource is still in
     state REQUESTED — which in every reachable state means it has no cached value (`fallback_needs_uncached_watch`);
-    the new active server `j` is the first server after it without a channel, it gets a channel (`build j`) and
-    every watched resource is subscribed on it; the watchers hear nothing.
+    the new active server `j` is the first server after it without a channel whose channel can be created (a
+    server whose transport cannot be created is skipped, as fallbackToServer does), it gets a channel (`build j`)
+    and every watched resource is subscribed on it; the watchers hear nothing.
 
     Before /repo 98104fb the code keyed the decision on the FAILING server, which need not be the active one (a
     still-down primary, or a stale report of a released channel): this theorem was `…_partial` and
@@ -26,7 +27,7 @@ theorem fallback_only_if_failed_before_any_response_and_uncached_watch
     (a : Auth) (e : AEv) (i j : Nat) (hi : a.active = some i) (hj : (a.step e).auth.active = some j) (hlt : i < j) :
     e = .failure i false ∧
       (∃ p ∈ a.res, p.2.status = .requested) ∧
-      j < a.n ∧ j ∉ a.opened ∧ (∀ x, i < x → x < j → x ∈ a.opened) ∧
+      j < a.n ∧ j ∉ a.opened ∧ j ∉ a.nobuild ∧ (∀ x, i < x → x < j → x ∈ a.opened ∨ x ∈ a.nobuild) ∧
       Cmd.build j ∈ (a.step e).cmds ∧ (∀ p ∈ a.res, Cmd.sub j p.1 ∈ (a.step e).cmds) ∧
       (a.step e).cbs = [] := by
   cases e with
@@ -62,7 +63,7 @@ theorem fallback_only_if_failed_before_any_response_and_uncached_watch
           simp only [Option.some.injEq] at hact
           subst hact
           have hm := mem_nextServer hn
-          refine ⟨rfl, ?_, hm.2.1, hm.2.2, ?_, by simp, ?_, trivial⟩
+          refine ⟨rfl, ?_, hm.2.1, hm.2.2, nextServer_buildable hn, ?_, by simp, ?_, trivial⟩
           · simp only [uncachedWatch, List.any_eq_true, decide_eq_true_eq] at hu
             exact hu
           · exact fun x hx1 hx2 => nextServer_between hn x hx1 hx2
@@ -70,9 +71,16 @@ theorem fallback_only_if_failed_before_any_response_and_uncached_watch
             simp only [List.mem_cons, List.mem_map]
             exact Or.inr ⟨p, hp, rfl⟩
       · simp [hu, hi] at hj; omega
+  | env l =>
+    exfalso
+    simp only [Auth.step, hi, Option.some.injEq] at hj
+    omega
   | watch k w =>
     exfalso
-    simp only [Auth.step, watch] at hj
+    simp only [Auth.step] at hj
+    rcases watchResource_cases a k w with ⟨_, hwr⟩ | ⟨_, hwr⟩ <;> rw [hwr] at hj
+    · simp only [hi, Option.some.injEq] at hj; omega
+    simp only [watch] at hj
     have : (channelToUse a).1.active = some i := by simp [channelToUse, hi]
     split at hj <;> simp [this] at hj <;> omega
   | unwatch k w =>
@@ -131,25 +139,46 @@ theorem no_fallback_otherwise (a : Auth) (srv : Nat) (after : Bool)
 
 /-! ### which channels exist -/
 
-/-- **C44, channels created / released.** In EVERY history (stale reports of released channels included, since
-    /repo 98104fb) the authority holds channels to exactly the servers 0 … active (none when nothing is watched):
-    each fallback opens the server right after the active one, each revert to `srv` leaves exactly 0 … srv. -/
-theorem channels_are_prefix_up_to_active (n : Nat) (ign : List Bool) (hist : List AEv) :
-    Prefix (Auth.run (Auth.init n ign) hist) := by
-  have : ∀ (es : List AEv) (a : Auth), Prefix a → Prefix (Auth.run a es) := by
+/-- **C44, channels created / released.** In EVERY history (stale reports of released channels and failing
+    transport creations included) the authority never holds a channel to a server below its active one, and none
+    at all when nothing is active: whatever was opened during fallback is gone after a revert. -/
+theorem no_channel_below_active (n : Nat) (ign : List Bool) (hist : List AEv) :
+    NoBelow (Auth.run (Auth.init n ign) hist) := by
+  have : ∀ (es : List AEv) (a : Auth), NoBelow a → NoBelow (Auth.run a es) := by
     intro es
     induction es with
     | nil => intro a hp; exact hp
-    | cons e es ih => intro a hp; exact ih _ (prefix_step hp)
+    | cons e es ih => intro a hp; exact ih _ (noBelow_step hp)
   exact this hist _ ⟨by simp [Auth.init], by simp [Auth.init]⟩
 
+/-- histories in which no transport creation ever fails -/
+def NoBuildFaultRun (hist : List AEv) : Prop := ∀ e ∈ hist, NoBuildFault e
+
+/-- In every history without failing transport creations (stale reports of released channels included, since
+    /repo 98104fb) the authority holds channels to exactly the servers 0 … active (none when nothing is watched):
+    each fallback opens the server right after the active one, each revert to `srv` leaves exactly 0 … srv. -/
+theorem channels_are_prefix_up_to_active (n : Nat) (ign : List Bool) (hist : List AEv) (h : NoBuildFaultRun hist) :
+    Prefix (Auth.run (Auth.init n ign) hist) ∧ (Auth.run (Auth.init n ign) hist).nobuild = [] := by
+  have : ∀ (es : List AEv) (a : Auth), Prefix a → a.nobuild = [] → (∀ e ∈ es, NoBuildFault e) →
+      Prefix (Auth.run a es) ∧ (Auth.run a es).nobuild = [] := by
+    intro es
+    induction es with
+    | nil => intro a hp hnb _; exact ⟨hp, hnb⟩
+    | cons e es ih =>
+      intro a hp hnb hf
+      exact ih _ (prefix_step hp hnb) (step_nobuild (hf e (by simp)) hnb) (fun e' he' => hf e' (by simp [he']))
+  exact this hist _ ⟨by simp [Auth.init], by simp [Auth.init]⟩ rfl h
+
 /-- … and then a fallback always goes from the active server `i` to `i + 1`. -/
-theorem fallback_goes_to_next (a : Auth) (hp : Prefix a) (e : AEv) (i j : Nat)
+theorem fallback_goes_to_next (a : Auth) (hp : Prefix a) (hnb : a.nobuild = []) (e : AEv) (i j : Nat)
     (hi : a.active = some i) (hj : (a.step e).auth.active = some j) (hlt : i < j) : j = i + 1 := by
-  obtain ⟨_, _, _, _, h4, _⟩ :=
+  obtain ⟨_, _, _, _, _, h4, _⟩ :=
     fallback_only_if_failed_before_any_response_and_uncached_watch a e i j hi hj hlt
   rcases Nat.lt_or_ge (i + 1) j with h | h
-  · have := (hp.2 i hi (i + 1)).mp (h4 (i + 1) (by omega) h); omega
+  · have h5 := h4 (i + 1) (by omega) h
+    rw [hnb] at h5
+    simp only [List.not_mem_nil, or_false] at h5
+    have := (hp.2 i hi (i + 1)).mp h5; omega
   · omega
 
 /-! ### reverting when a higher-priority server delivers an update -/
@@ -157,7 +186,9 @@ theorem fallback_goes_to_next (a : Auth) (hp : Prefix a) (e : AEv) (i j : Nat)
 /-- **C44, revert.** An update from a server `srv` of higher priority than the active one makes `srv` the active
     server, is processed (callbacks as for any update, `onDone` armed), and for every configured server `i` below
     `srv`: everything subscribed there is unsubscribed, its channel is released if it had one, and afterwards it
-    has no channel and no resource lists it. -/
+    has no channel and no resource lists it. This holds whatever the set of channels looks like: in particular
+    when a fallback skipped a server whose transport could not be created, the channel behind that gap is
+    released too (`revert_releases_behind_a_gap`). -/
 theorem revert_on_higher_priority_update_releases_lower (a : Auth) (srv act : Nat) (typ ver : String)
     (es : List (String × Upd)) (hact : a.active = some act) (hlt : srv < act) :
     let o := handleUpdate a srv typ ver es
@@ -218,6 +249,16 @@ theorem updates_below_active_ignored (a : Auth) (srv : Nat) (typ ver : String) (
   rcases h with h | ⟨act, h, hlt⟩
   · simp [handleUpdate, revert_none h]
   · simp [handleUpdate, revert_below h hlt]
+
+/-- A fallback that had to skip server 1 (its transport cannot be created) lands on server 2; when the primary
+    delivers an update, server 2 — behind the gap — is unsubscribed and released. -/
+theorem revert_releases_behind_a_gap :
+    let a := Auth.run (Auth.init 3 [false, false, false])
+      [.watch ⟨"T", "r1"⟩ 1, .env [1], .failure 0 false]
+    let o := a.step (.update 0 1 "T" "v1" [("r1", .ok "c")])
+    a.active = some 2 ∧ a.opened = [0, 2] ∧
+    o.auth.active = some 0 ∧ o.auth.opened = [0] ∧ o.cmds = [.unsub 2 ⟨"T", "r1"⟩, .release 2] := by
+  decide
 
 /-! ### observations outside the listed clauses (both reproduced on the real client by the harness) -/
 
